@@ -281,7 +281,7 @@ class Body:
         if kind == "call":
             t = payload
             decl, res, info = callee_of(t)
-            name = (res or decl or "?")
+            name = (decl or res or "?")
             args = ",".join(self.key_of_operand(a, depth + 1) for a in t.get("args", []))
             return "%s(%s)" % (short_fn(name), args)
         return "_%d" % l
